@@ -87,6 +87,7 @@ func (m rcModel) rows() []uint64 {
 }
 
 type rcRun struct {
+	fit     bool // cache holds exactly as many rows as the row universe
 	tiny    bool // cache holds at most 2 rows: only reported counts are checked (C12 is silent about rows a cache forgot)
 	t       *testing.T
 	res     *rcResult
@@ -314,11 +315,22 @@ func (rr *rcRun) runSetSequence(rng *rand.Rand, cacheType string, shard uint64, 
 		case CacheTypeLRU:
 			f.cache = newLRUCache(2)
 		}
+	} else if rr.fit {
+		// a cache with exactly as many entries as there are rows: every row fits,
+		// so every TopN clause of C12 applies, and the cache is full
+		n := uint32(len(rcRows))
+		f.CacheSize = n
+		switch cacheType {
+		case CacheTypeRanked:
+			f.cache = NewRankCache(n)
+		case CacheTypeLRU:
+			f.cache = newLRUCache(n)
+		}
 	}
 	f.MaxOpN = 5 + rng.Intn(40) // force snapshots at different points
 	m := rcModel{}
 	base := shard * ShardWidth
-	rr.seq = []string{fmt.Sprintf("fragment(shard=%d,cache=%s,tiny=%v,MaxOpN=%d)", shard, cacheType, rr.tiny, f.MaxOpN)}
+	rr.seq = []string{fmt.Sprintf("fragment(shard=%d,cache=%s,tiny=%v,fit=%v,MaxOpN=%d)", shard, cacheType, rr.tiny, rr.fit, f.MaxOpN)}
 	rr.nontriv = false
 	pick := func() (uint64, uint64) {
 		return rcRows[rng.Intn(len(rcRows))], base + rcCols[rng.Intn(len(rcCols))]
@@ -745,6 +757,10 @@ func TestRcheckFragment(t *testing.T) {
 				rr.runSetSequence(rng, ct, []uint64{0, 3}[i%2], 4+rng.Intn(11))
 				record()
 				rr.tiny = false
+				rr.fit = true
+				rr.runSetSequence(rng, ct, []uint64{0, 3}[i%2], 6+rng.Intn(11))
+				record()
+				rr.fit = false
 			}
 		}
 		rr.runMutexSequence(rng, false, 3+rng.Intn(8))
